@@ -176,18 +176,32 @@ int main(int argc, char** argv)
                                 size_t held_before = vrf::held_count();
                                 COW::handle h = cow->lock();
                                 if (!h) vrf::violation("oracle:write_handle_null", "{}");
+                                // the working copy is reached in one of the ways a write handle (a std::unique_ptr with a
+                                // committing deleter) offers: its * and ->, get(), or through a reference to the unique_ptr
+                                // it is (what generic code that takes a unique_ptr sees)
+                                auto acc = [&](COW::handle& x) -> Cell& {
+                                    switch (a.id % 3) {
+                                        case 1: return *x.get();
+                                        case 2: {
+                                            std::unique_ptr<Cell, typename COW::handle::deleter_type>& base = x;
+                                            return (a.id % 2) ? *base : *base.operator->();
+                                        }
+                                        default: return (a.id % 2) ? *x : *x.operator->();
+                                    }
+                                };
                                 {
-                                    Win win(*h, true);
+                                    Cell& c = acc(h);
+                                    Win win(c, true);
                                     vrf::tl_vt_label = static_cast<int>(a.id);
-                                    h->check("private copy");
-                                    w.initial = h->log();
+                                    c.check("private copy");
+                                    w.initial = c.log();
                                     for (int i = 0; i < a.hold; i++) vrf::user_point();
-                                    h->append_raw(a.id);
+                                    c.append_raw(a.id);
                                 }
                                 auto release = [&](COW::handle& hh) {
                                     w.rel_call = vrf::now();
                                     if (a.kind == 'W') {
-                                        hh->frozen = true;  // from now on the object is (about to be) published: nobody may write to it
+                                        acc(hh).frozen = true;  // from now on the object is (about to be) published: nobody may write to it
                                         hh.reset();
                                     } else {
                                         hh.cancel();
@@ -202,8 +216,9 @@ int main(int argc, char** argv)
                                     COW::handle h2(std::move(h));
                                     if (h) vrf::violation("oracle:moved_from_write_handle_not_null", "{}");
                                     {
-                                        Win win(*h2, true);
-                                        h2->check("moved handle");
+                                        Cell& c2 = acc(h2);
+                                        Win win(c2, true);
+                                        c2.check("moved handle");
                                     }
                                     release(h2);
                                 } else {
